@@ -6,8 +6,7 @@ Import ListNotations.
 From PT Require Import Model.SeatManager.
 Open Scope Z_scope.
 
-(* clockwise distance from seat a to seat b on a table of n seats, in 0..n-1 *)
-Definition cwd (n a b : Z) : Z := (b - a) mod n.
+(* cwd n a b (Base/ZScan.v): clockwise distance from seat a to seat b on n seats, in 0..n-1 *)
 
 Definition seats_idx (s : sm) : list Z := zrange 0 (sm_max s).
 
